@@ -80,7 +80,10 @@ func longestWhitespacePrefix(bb [][]byte) []byte {
 	}
 
 	for i := 1; i < len(bb); i++ {
-		if len(bb[i]) != 0 {
+		// A line of spaces has no indentation of its own: counting it made the
+		// result depend on the spaces of blank lines, and normalizing the result
+		// once more removed more indentation.
+		if len(bytes.TrimLeft(bb[i], "\t ")) != 0 {
 			for !bytes.HasPrefix(bb[i], prefix) {
 				prefix = prefix[:len(prefix)-1]
 				if len(prefix) == 0 {
